@@ -30,19 +30,20 @@ var interpPkgs = []string{
 }
 
 type Spec struct {
-	ID       string               `json:"id"`
-	Property string               `json:"property"`
-	Pkg      string               `json:"pkg"` // directory relative to /repo ("." for the root package)
-	Entry    string               `json:"entry"`
-	Cases    map[string][][]int64 `json:"cases"` // tier -> list of parameter tuples
-	Reach    []string             `json:"reach"`
-	MaxDepth int                  `json:"max_depth"`
-	MaxSteps int                  `json:"max_steps"`
-	IntMode  bool                 `json:"int_mode"`
-	Carves   []string             `json:"carves"`
-	Timeout  int                  `json:"solver_timeout_ms"`
-	MaxPaths int                  `json:"max_paths"`
-	Note     string               `json:"note"`
+	ID        string               `json:"id"`
+	Property  string               `json:"property"`
+	Pkg       string               `json:"pkg"` // directory relative to /repo ("." for the root package)
+	Entry     string               `json:"entry"`
+	Cases     map[string][][]int64 `json:"cases"` // tier -> list of parameter tuples
+	Reach     []string             `json:"reach"`
+	MaxDepth  int                  `json:"max_depth"`
+	MaxSteps  int                  `json:"max_steps"`
+	IntMode   bool                 `json:"int_mode"`
+	Carves    []string             `json:"carves"`
+	Timeout   int                  `json:"solver_timeout_ms"`
+	MaxPaths  int                  `json:"max_paths"`
+	Note      string               `json:"note"`
+	Overrides map[string]string    `json:"overrides"`
 }
 
 type CaseResult struct {
@@ -56,6 +57,7 @@ type CaseResult struct {
 	WallS        float64        `json:"wall_s"`
 	Samples      []string       `json:"samples"`
 	Truncated    bool           `json:"truncated"`
+	Witnesses    []Violation    `json:"witnesses"`
 }
 
 type ShardResult struct {
@@ -208,10 +210,12 @@ func (in *Interp) initPackages(roots []string) {
 		runInit(r)
 	}
 	in.initing = false
+	initBoxes = in.nextBox
 	initSteps = in.path.steps
 }
 
 var initSteps int
+var initBoxes int64
 
 var initFailures []string
 
@@ -232,6 +236,7 @@ func cmdRun(argv []string) {
 	solverName := fs.String("solver", "z3", "z3|z3-new|cvc5")
 	paramsFlag := fs.String("params", "", "override: single case, comma separated ints")
 	fs.BoolVar(&verbose, "v", false, "verbose")
+	fs.BoolVar(&stopFirst, "first", false, "stop a case at its first violation")
 	fs.Parse(argv)
 	t0 := time.Now()
 	probeID = *probe
@@ -263,6 +268,7 @@ func cmdRun(argv []string) {
 		}
 	}
 	in = newInterp(prog, modPath)
+	setupBigTypes()
 	loadS := time.Since(t0).Seconds()
 	t1 := time.Now()
 	rootSet := map[string]bool{}
@@ -404,6 +410,8 @@ func cmdRun(argv []string) {
 }
 
 var engineErrors []string
+var stopFirst bool
+var overrides = map[string]*ssa.Function{}
 
 func mergeStats(dst, src *Stats) {
 	dst.Paths += src.Paths
@@ -419,6 +427,7 @@ func mergeStats(dst, src *Stats) {
 	dst.AssertUnsat += src.AssertUnsat
 	dst.AssertSat += src.AssertSat
 	dst.AssertUnknown += src.AssertUnknown
+	dst.AssertFolded += src.AssertFolded
 	for k, v := range src.Unsupported {
 		dst.Unsupported[k] += v
 	}
@@ -479,6 +488,15 @@ func runCase(spec Spec, params []int64, sv *Solver, res *ShardResult) CaseResult
 	}
 	in.ex = ex
 	in.intMode = spec.IntMode
+	overrides = map[string]*ssa.Function{}
+	for from, to := range spec.Overrides {
+		i := strings.LastIndex(to, ".")
+		tp := in.prog.ImportedPackage(to[:i])
+		if tp == nil || tp.Func(to[i+1:]) == nil {
+			fatalf("override target %s not found", to)
+		}
+		overrides[from] = tp.Func(to[i+1:])
+	}
 	cr := CaseResult{Obligation: spec.ID, Params: params, Ends: map[string]int{}}
 	reached := map[string]bool{}
 	ex.work = []workItem{{}}
@@ -499,6 +517,7 @@ func runCase(spec Spec, params []int64, sv *Solver, res *ShardResult) CaseResult
 		in.path = p
 		in.curViolations = nil
 		in.depth = 0
+		in.nextBox = initBoxes
 		end := runPath(fn, args)
 		rollback()
 		ex.stats.Paths++
@@ -535,6 +554,17 @@ func runCase(spec Spec, params []int64, sv *Solver, res *ShardResult) CaseResult
 		}
 		if len(cr.Samples) < 3 && end.kind == "returned" && len(p.inputs) > 0 {
 			cr.Samples = append(cr.Samples, sampleOf(p))
+		}
+		if len(cr.Witnesses) < 2 && end.kind == "returned" && len(p.inputs) > 0 && probeID == "" {
+			in.curViolations = nil
+			recordViolation("", "", p.model)
+			w := in.curViolations[0]
+			w.Obligation, w.Entry, w.Pkg, w.Params = spec.ID, spec.Entry, spec.Pkg, params
+			cr.Witnesses = append(cr.Witnesses, w)
+			in.curViolations = nil
+		}
+		if stopFirst && len(cr.Violations) > 0 {
+			break
 		}
 		cr.Inconclusive = append(cr.Inconclusive, in.inconclusive...)
 		in.inconclusive = nil
